@@ -65,15 +65,6 @@ theorem Layout.blanks {sp : List Byte} (h : sp.all isSpace = true) {m : List Byt
     simp only [List.all_cons, Bool.and_eq_true] at h
     exact Layout.blank h.1 (ih h.2)
 
-theorem Layout.append {a b : List Byte} (ha : Layout a) (hb : Layout b) : Layout (a ++ b) := by
-  induction ha with
-  | nil => simpa using hb
-  | blank hc _ ih => exact Layout.blank hc ih
-  | @comment body m _ ih =>
-    have : 47 :: 42 :: (body ++ 42 :: 47 :: m) ++ b = 47 :: 42 :: (body ++ 42 :: 47 :: (m ++ b)) := by simp
-    rw [this]; exact Layout.comment ih
-  | unterminated => exact Layout.unterminated
-
 /-- a closed comment body: what `commentBody` consumes ends with `*/` -/
 theorem commentBody_some (prev : Byte) (l r : List Byte) (l' r' : List Byte) (h : commentBody prev l r = some (l', r')) :
     ∃ k, r = k ++ r' ∧ l' = k.reverse ++ l ∧ ∃ b, prev :: k = b ++ [42, 47] := by
@@ -92,6 +83,43 @@ theorem commentBody_some (prev : Byte) (l r : List Byte) (l' r' : List Byte) (h 
       refine ⟨c :: k, by simp [h1], by simp [h2], prev :: b, ?_⟩
       simp [hb]
 
+
+theorem noClose_prefix (p : Byte) (a b : List Byte) (h : noClose p (a ++ b) = true) : noClose p a = true := by
+  induction a generalizing p with
+  | nil => rfl
+  | cons c t ih =>
+    simp only [List.cons_append, noClose, Bool.and_eq_true] at h ⊢
+    exact ⟨h.1, ih c h.2⟩
+
+/-- an unterminated comment: its text contains no `*/` -/
+theorem commentBody_none (prev : Byte) (l r : List Byte) (h : commentBody prev l r = none) : noClose prev r = true := by
+  induction r generalizing prev l with
+  | nil => rfl
+  | cons c t ih =>
+    by_cases hc : (prev == 42 && c == 47) = true
+    · simp [commentBody, hc] at h
+    · have hc' : (prev == 42 && c == 47) = false := by simpa using hc
+      simp only [commentBody, hc', Bool.false_eq_true, if_false] at h
+      simp only [noClose, hc', Bool.not_false, Bool.true_and]
+      exact ih c (c :: l) h
+
+/-- a closed comment: before its last character (the `/` of the closing `*/`) the consumed text contains no `*/` -/
+theorem commentBody_noClose (prev : Byte) (l r : List Byte) (l' r' : List Byte) (h : commentBody prev l r = some (l', r')) :
+    ∃ k, r = k ++ r' ∧ k ≠ [] ∧ noClose prev k.dropLast = true := by
+  induction r generalizing prev l with
+  | nil => simp [commentBody] at h
+  | cons c t ih =>
+    by_cases hc : (prev == 42 && c == 47) = true
+    · simp only [commentBody, hc, if_true, Option.some.injEq, Prod.mk.injEq] at h
+      obtain ⟨_, rfl⟩ := h
+      exact ⟨[c], rfl, by simp, rfl⟩
+    · have hc' : (prev == 42 && c == 47) = false := by simpa using hc
+      simp only [commentBody, hc', Bool.false_eq_true, if_false] at h
+      obtain ⟨k, h1, hk, h2⟩ := ih c (c :: l) h
+      refine ⟨c :: k, by simp [h1], by simp, ?_⟩
+      rw [List.dropLast_cons_of_ne_nil hk]
+      simp only [noClose, hc', Bool.not_false, Bool.true_and]
+      exact h2
 
 /-- `SkipTokenSeparators`: what it consumes is layout, and it stops at the end of the input or in front of a non-blank -/
 theorem skipSeps_spec (n : Nat) (l r : List Byte) (hn : r.length < n) :
@@ -115,7 +143,7 @@ theorem skipSeps_spec (n : Nat) (l r : List Byte) (hn : r.length < n) :
         obtain ⟨rfl, rfl⟩ := heq
         cases hcb : commentBody 0 (42 :: 47 :: (sp.reverse ++ l)) r3 with
         | none =>
-          refine ⟨sp ++ 47 :: 42 :: r3, ?_, ?_, Layout.blanks h2 Layout.unterminated, Or.inl ?_⟩ <;> simp
+          refine ⟨sp ++ 47 :: 42 :: r3, ?_, ?_, Layout.blanks h2 (Layout.unterminated (commentBody_none 0 _ r3 hcb)), Or.inl ?_⟩ <;> simp
         | some lr' =>
           obtain ⟨l', r'⟩ := lr'
           obtain ⟨k, hk1, hk2, b, hb⟩ := commentBody_some 0 _ r3 l' r' hcb
@@ -129,9 +157,17 @@ theorem skipSeps_spec (n : Nat) (l r : List Byte) (hn : r.length < n) :
             | nil => simp at hb
             | cons x b' => simp at hb; exact ⟨b', hb.2⟩
           obtain ⟨b', rfl⟩ := hkb
+          have hnc : noClose 0 b' = true := by
+            obtain ⟨k2, hk21, _, hk23⟩ := commentBody_noClose 0 _ r3 l' r' hcb
+            have hk : k2 = b' ++ [42, 47] := List.append_cancel_right (hk21.symm.trans hk1)
+            rw [hk] at hk23
+            have : (b' ++ [42, 47]).dropLast = b' ++ [42] := by
+              rw [show b' ++ [42, 47] = (b' ++ [42]) ++ [47] by simp, List.dropLast_concat]
+            rw [this] at hk23
+            exact noClose_prefix 0 b' [42] hk23
           simp only
           generalize skipSeps n l' r' = X at hm1 hm2 hm3 hm4 ⊢
-          refine ⟨sp ++ 47 :: 42 :: (b' ++ 42 :: 47 :: m2), ?_, ?_, Layout.blanks h2 (Layout.comment hm3), hm4⟩
+          refine ⟨sp ++ 47 :: 42 :: (b' ++ 42 :: 47 :: m2), ?_, ?_, Layout.blanks h2 (Layout.comment hnc hm3), hm4⟩
           · rw [hk1, hm1]; simp
           · rw [hm2, hk2]; simp
       · exact ⟨sp, rfl, rfl, by simpa using Layout.blanks h2 Layout.nil, Or.inr ⟨c, t, rfl, hc, rfl, rfl⟩⟩
@@ -345,6 +381,63 @@ theorem skipTo_spec (cfg : LexCfg) (ds : List Byte) (c : Byte) (l r : List Byte)
       · rcases h3 with ⟨hr, c', hc', hs⟩ | ⟨d, t', hr, hd, hs⟩
         · exact Or.inl ⟨hr, c', hc', by simp [skipTo, hx', hs]⟩
         · exact Or.inr ⟨d, t', hr, hd, by simp [skipTo, hx', hs]⟩
+
+theorem skipToRec_spec (cfg : LexCfg) (ds : List Byte) (inStr : Bool) (c : Byte) (l r : List Byte) (hc : delimAt cfg ds c = false) :
+    ∃ m rest, r = m ++ rest ∧ (∀ b ∈ m, delimAt cfg ds b = false) ∧
+      ((rest = [] ∧ ∃ c', delimAt cfg ds c' = false ∧ skipToRec cfg ds inStr c l r = (c', m.reverse ++ l, [], true, false)) ∨
+       (∃ d t, rest = d :: t ∧ delimAt cfg ds d = true ∧ skipToRec cfg ds inStr c l r = (d, d :: (m.reverse ++ l), t, false, false)) ∨
+       (∃ t, rest = 59 :: t ∧ delimAt cfg ds 59 = false ∧ skipToRec cfg ds inStr c l r = (59, m.reverse ++ l, 59 :: t, false, true))) := by
+  induction r generalizing c l inStr with
+  | nil => exact ⟨[], [], by simp, by simp, Or.inl ⟨rfl, c, hc, by simp [skipToRec]⟩⟩
+  | cons x t ih =>
+    by_cases hx : delimAt cfg ds x = true
+    · exact ⟨[], x :: t, by simp, by simp, Or.inr (Or.inl ⟨x, t, rfl, hx, by simp [skipToRec, hx]⟩)⟩
+    · have hx' : delimAt cfg ds x = false := by simpa using hx
+      by_cases h39 : (x == 39) = true
+      · obtain ⟨m, rest, h1, h2, h3⟩ := ih (!inStr) x (x :: l) hx'
+        refine ⟨x :: m, rest, by simp [h1], ?_, ?_⟩
+        · intro b hb
+          rcases List.mem_cons.mp hb with rfl | hb
+          · exact hx'
+          · exact h2 b hb
+        · rcases h3 with ⟨hr, c', hc', hs⟩ | ⟨d, t', hr, hd, hs⟩ | ⟨t', hr, hd, hs⟩
+          · exact Or.inl ⟨hr, c', hc', by simp [skipToRec, hx', h39, hs]⟩
+          · exact Or.inr (Or.inl ⟨d, t', hr, hd, by simp [skipToRec, hx', h39, hs]⟩)
+          · exact Or.inr (Or.inr ⟨t', hr, hd, by simp [skipToRec, hx', h39, hs]⟩)
+      · have h39' : (x == 39) = false := by simpa using h39
+        by_cases h59 : (x == 59 && !inStr) = true
+        · have hx59 : x = 59 := by simp at h59; exact h59.1
+          have hin : inStr = false := by simp at h59; exact h59.2
+          subst hx59 hin
+          refine ⟨[], 59 :: t, by simp, by simp, Or.inr (Or.inr ⟨t, rfl, hx', ?_⟩)⟩
+          simp [skipToRec, hx']
+        · have h59' : (x == 59 && !inStr) = false := by simpa using h59
+          obtain ⟨m, rest, h1, h2, h3⟩ := ih inStr x (x :: l) hx'
+          refine ⟨x :: m, rest, by simp [h1], ?_, ?_⟩
+          · intro b hb
+            rcases List.mem_cons.mp hb with rfl | hb
+            · exact hx'
+            · exact h2 b hb
+          · rcases h3 with ⟨hr, c', hc', hs⟩ | ⟨d, t', hr, hd, hs⟩ | ⟨t', hr, hd, hs⟩
+            · exact Or.inl ⟨hr, c', hc', by simp [skipToRec, hx', h39', h59', hs]⟩
+            · exact Or.inr (Or.inl ⟨d, t', hr, hd, by simp [skipToRec, hx', h39', h59', hs]⟩)
+            · exact Or.inr (Or.inr ⟨t', hr, hd, by simp [skipToRec, hx', h39', h59', hs]⟩)
+
+/-- the recovery loop of either configuration: it consumes a delimiter-free stretch `m` and stops at the end of the input, at
+    a delimiter (consumed, to be put back), or — repaired loop — in front of a `;` -/
+theorem skipGarbage_spec (cfg : LexCfg) (ds : List Byte) (c : Byte) (l r : List Byte) (hc : delimAt cfg ds c = false) :
+    ∃ m rest, r = m ++ rest ∧ (∀ b ∈ m, delimAt cfg ds b = false) ∧
+      ((rest = [] ∧ ∃ c', delimAt cfg ds c' = false ∧ skipGarbage cfg ds c l r = (c', m.reverse ++ l, [], true, false)) ∨
+       (∃ d t, rest = d :: t ∧ delimAt cfg ds d = true ∧ skipGarbage cfg ds c l r = (d, d :: (m.reverse ++ l), t, false, false)) ∨
+       (∃ t, rest = 59 :: t ∧ delimAt cfg ds 59 = false ∧ skipGarbage cfg ds c l r = (59, m.reverse ++ l, 59 :: t, false, true))) := by
+  unfold skipGarbage
+  split
+  · exact skipToRec_spec cfg ds false c l r hc
+  · obtain ⟨m, rest, h1, h2, h3⟩ := skipTo_spec cfg ds c l r hc
+    refine ⟨m, rest, h1, h2, ?_⟩
+    rcases h3 with ⟨hr, c', hc', hs⟩ | ⟨d, t, hr, hd, hs⟩
+    · exact Or.inl ⟨hr, c', hc', by rw [hs]⟩
+    · exact Or.inr (Or.inl ⟨d, t, hr, hd, by rw [hs]⟩)
 
 /-- a value followed by blanks and a delimiter: `CheckRemainingInput` skips the blanks, stops *at* the delimiter and
     reports nothing (whatever `failbit` said before) -/
@@ -623,8 +716,8 @@ theorem cri_left (cfg : LexCfg) (s : IStream) (e : Sev) (hb : s.bad = false) :
         exact ⟨m, [], by simp, by simpa using h1, h3, by simp⟩
       · have hd' : delimAt cfg attrDelims c = false := by simpa using hd
         simp only [hd', Bool.false_eq_true, if_false]
-        obtain ⟨g, rest, hg1, hg2, hg3⟩ := skipTo_spec cfg attrDelims c (m.reverse ++ l) (c :: t) hd'
-        rcases hg3 with ⟨hrest, c', hc', hs⟩ | ⟨d, t', hrest, hdd, hs⟩
+        obtain ⟨g, rest, hg1, hg2, hg3⟩ := skipGarbage_spec cfg attrDelims c (m.reverse ++ l) (c :: t) hd'
+        rcases hg3 with ⟨hrest, c', hc', hs⟩ | ⟨d, t', hrest, hdd, hs⟩ | ⟨t', hrest, h59, hs⟩
         · subst hrest
           refine ⟨m, g, ?_, ?_, h3, hg2⟩
           · simp [hs, hc']
@@ -636,6 +729,11 @@ theorem cri_left (cfg : LexCfg) (s : IStream) (e : Sev) (hb : s.bad = false) :
           · simp [hs, hdd, IStream.putback, IStream.sentry, IStream.good]
           · simp only [hs, hdd]
             rw [h1, hg1]; simp [IStream.putback, IStream.sentry, IStream.good]
+        · subst hrest
+          refine ⟨m, g, ?_, ?_, h3, hg2⟩
+          · simp [hs]
+          · simp only [hs]
+            rw [h1, hg1]; simp
 
 /-! ### enumeration-like kinds -/
 theorem wordLoop_stop (p : Byte → Bool) (str : List Byte) (c : Byte) (l r : List Byte) (hc : p c = false) :
